@@ -167,6 +167,17 @@ def wake_count(F, R, ver):
     R.ob('C13.wake-count', '%s|set_cap|wakes up to cap' % ver, ok, 'set_cap must wake at most `cap` parked senders (one per slot)')
 
 
+def park_only_when_closed(F, R, ver):
+    """wait_readiness parks a sender only when the window is full or write back-pressure is on. Those are the two conditions
+    whose lifting wakes parked senders (acknowledgement, set_cap, disable_wr_backpressure); a sender parked for another
+    reason - e.g. because somebody else is already queued - is woken by nothing while credit is free."""
+    import c05
+    pf = c05.predicate_fields(F, ver)
+    extra = sorted(pf - {'inflight', 'cap', 'flags', 'queues'})
+    R.ob('C13.every-opening-wakes', '%s|wait_readiness|parks-only-on-window-or-backpressure' % ver, not extra,
+         'the decision to park a sender also reads %s: a sender can be parked while the window has room and back-pressure is off, and no event is defined to wake it' % extra)
+
+
 def counter_bounded(b, init_pred):
     """A wake loop bounded by a down-counter: some local is initialised from a value accepted by init_pred,
     compared with 0 on a cycle that contains a pop of `waiters`, and decremented by 1 inside that cycle."""
@@ -310,6 +321,7 @@ def run(F, R):
     for ver in ('v3', 'v5'):
         wake_checked(F, R, ver)
         every_opening_wakes(F, R, ver)
+        park_only_when_closed(F, R, ver)
         wake_count(F, R, ver)
         stream_resume(F, R, ver)
         baton(F, R, ver)
